@@ -4,6 +4,7 @@ import RimeModel.C06.ReverseLemmas
 import RimeModel.C06.SourceLemmas
 import RimeModel.C06.ArenaLemmas
 import RimeModel.C06.WeightLemmas
+import RimeModel.C06.LayoutLemmas
 /-!
 C06 — a compiled dictionary contains exactly its source entries.  Property theorems only.
 
@@ -332,6 +333,53 @@ theorem offsetptr_get_set (self target : Nat)
 theorem offsetptr_wraps : ptrGet 0 (ptrSet 0 (some (2 ^ 31))) ≠ some ((2 ^ 31 : Nat) : Int) := by
   decide
 
+/-! ### the repair of the table-growth defect: the file never grows while raw pointers are live -/
+
+/-- the size functions of the repair (`EntryListSize`, `TailIndexSize`, `TrunkIndexSize`, `HeadIndexSize`, plus
+metadata and syllabary) bound the worst-case bytes — alignment padding included — of the allocation sequence
+`Table::Build` issues, for EVERY index shape: empty entry lists, absent head nodes, nodes with or without a
+next level, tail pages with extra codes of any length. -/
+theorem alloc_sequence_bounded (t : Tree W) : allocCost (buildAllocs t) ≤ indexSize t :=
+  buildAllocs_cost t
+
+/-- **index_fits_estimate** — in a file created with `estimated_file_size` bytes no `Allocate` issued between
+`Create` and `OnBuildFinish` has to grow the file (so the mapping is never closed and re-opened while index
+nodes, entry lists and string-id references are addressed through raw pointers), and at least the reserved
+4096 bytes are still free afterwards. -/
+theorem index_fits_estimate (t : Tree W) (numEntries : Nat) :
+    NeverGrows (create (estimatedFileSize t numEntries)) (buildAllocs t) ∧
+    (allocateAll (create (estimatedFileSize t numEntries)) (buildAllocs t)).size + kReservedSize
+      ≤ estimatedFileSize t numEntries := by
+  have hb := buildAllocs_cost t
+  have hp := alignPos_build t
+  have he : kReservedSize + indexSize t ≤ estimatedFileSize t numEntries := Nat.le_max_right _ _
+  constructor
+  · apply neverGrows_of_fits _ _ hp
+    simp only [create]
+    omega
+  · have := allocateAll_size_le (buildAllocs t) (create (estimatedFileSize t numEntries)) hp
+    have h0 : (create (estimatedFileSize t numEntries)).size = 0 := rfl
+    omega
+
+/-- any capacity of at least `index_size` bytes will do (the estimate adds the reserve on top) -/
+theorem index_fits_capacity (t : Tree W) (cap : Nat) (h : indexSize t ≤ cap) :
+    NeverGrows (create cap) (buildAllocs t) := by
+  apply neverGrows_of_fits _ _ (alignPos_build t)
+  have := buildAllocs_cost t
+  simp only [create]
+  omega
+
+/-- the one allocation that may still grow the file — the string-table image in `OnBuildFinish` — leaves every
+byte of metadata, syllabary and index at its offset, whatever the image size; the pointers the repaired code
+re-derives afterwards from offset 0 (`Find<Metadata>(0)`, then `metadata_->syllabary.get()` and
+`metadata_->index.get()`, both self-relative offsets inside the preserved bytes) therefore read what was
+written. -/
+theorem string_table_allocation_preserves (t : Tree W) (numEntries imageSize : Nat) (i : Nat)
+    (hi : i < (allocateAll (create (estimatedFileSize t numEntries)) (buildAllocs t)).size) :
+    (allocate (allocateAll (create (estimatedFileSize t numEntries)) (buildAllocs t)) 1 imageSize).1.bytes[i]?
+      = (allocateAll (create (estimatedFileSize t numEntries)) (buildAllocs t)).bytes[i]? :=
+  (grow_preserves _ (allocateAll_wf _ _ (create_wf _)) 1 imageSize (by omega)).1 i hi
+
 /-! ### non-vacuity -/
 
 /-- a concrete vocabulary with homophones, a two-syllable code, a code of exactly four and one of six
@@ -355,6 +403,14 @@ example :
       (fun e => (e.text, e.code, e.weightStr))) =
       [([120], [[97]], [49]), ([120, 121], [[97], [98]], [50]), ([120, 121], [[97], [98]], [50]),
        ([120], [[97]], [51])] := by
+  decide
+
+/-- the bound on a concrete index (one word, one phrase of five syllables): worst-case cost 206 ≤ bound 232, actual end 188, and
+without the bound's bytes the very same sequence does grow a file that is too small -/
+example :
+    let t : Tree Nat := build id 2 [⟨[0], [1], 5⟩, ⟨[1, 0, 1, 0, 1], [5], 9⟩]
+    allocCost (buildAllocs t) = 206 ∧ indexSize t = 232 ∧ indexEnd t = 188 ∧
+    ¬ NeverGrows (create 100) (buildAllocs t) := by
   decide
 
 /-- the arena: an allocation that does not fit doubles the capacity and keeps the old bytes -/
